@@ -17,6 +17,7 @@ struct C01Monitor : Monitor {
   Outcome &out;
   GammaOpts full, cheap;
   std::map<std::string, AbsVal::P> pre, post;
+  std::map<const AbsVal *, GammaCache> caches; // dropped whenever the invariants are touched (F4)
   std::map<std::string, int> seen_pre, seen_post;
   std::map<std::string, std::vector<LinCst>> assumptions; // per block
   long checks = 0;
@@ -42,7 +43,7 @@ struct C01Monitor : Monitor {
     AbsVal &inv = get(is_pre ? pre : post, label, is_pre);
     int &n = (is_pre ? seen_pre : seen_post)[label];
     Sigma sg = sigma_of(f.st, fn.vars, &m.heap);
-    GammaResult g = in_gamma(inv, sg, n < full_checks_per_point ? full : cheap);
+    GammaResult g = in_gamma(inv, sg, n < full_checks_per_point ? full : cheap, &caches[&inv]);
     n++;
     checks++;
     if (!g.ok) {
@@ -183,6 +184,7 @@ Outcome check_c01(const Case &c, Stats &st) {
         }
         for (auto &kv : mon.post)
           kv.second->normalize();
+        mon.caches.clear();
         st.inc("fault_f4_benign_events");
       }
     }
